@@ -76,11 +76,26 @@ def states(n: int, incomplete: bool):
             yield v
 
 
+def find_role(proj: Project, cls, name: str):
+    """The routine playing role `name` (e.g. '__add_left'): a method of the class under that name, or - after a
+    refactoring that moved the private helpers out of the class - a module-level function of the same module whose name
+    differs only by leading underscores."""
+    f = proj.lookup_method(cls, name)
+    if f is not None:
+        return f
+    stem = name.lstrip("_")
+    cands = [g for n_, g in cls.module.functions.items() if n_.lstrip("_") == stem]
+    if len(cands) == 1:
+        return cands[0]
+    raise AnalysisError(f"anchor routine {cls.qualname}.{name} not found (neither as a method nor as a function of "
+                        f"{cls.module.name})")
+
+
 class StepSim:
     def __init__(self, proj: Project):
         self.cls = proj.cls(MOD, "Ranking")
-        self.fn = {m: proj.method(self.cls, m) for m in MOVES + ["__step_element_complete", "__step_element_incomplete",
-                                                                 "__change_ranking_complete", "__change_ranking_incomplete"]}
+        self.fn = {m: find_role(proj, self.cls, m) for m in MOVES + ["__step_element_complete", "__step_element_incomplete",
+                                                                    "__change_ranking_complete", "__change_ranking_incomplete"]}
 
     def funcs(self, draws: List[int], log: Dict) -> Dict:
         funcs = np_hooks()
@@ -101,6 +116,7 @@ class StepSim:
                 return ev.call_user(self.fn[m].node, [ev.ev(a) for a in call.args])
             funcs["Ranking." + m] = hook
             funcs["Ranking._Ranking" + m] = hook
+            funcs[self.fn[m].name] = hook                   # module-level form
         return funcs
 
     def step(self, mode: str, vec: List[int], elem: int, draw: int):
@@ -233,8 +249,11 @@ def _check_conversion(res: Result, proj: Project, sim: StepSim):
                 row[i] = x
             k[0] += 1
         other_called = []
-        funcs["Ranking.__change_ranking_complete"] = change if complete else (lambda ev, call: other_called.append(1))
-        funcs["Ranking.__change_ranking_incomplete"] = change if not complete else (lambda ev, call: other_called.append(1))
+        for role, hook in (("__change_ranking_complete", change if complete else (lambda ev, call: other_called.append(1))),
+                           ("__change_ranking_incomplete", change if not complete else (lambda ev, call: other_called.append(1)))):
+            funcs["Ranking." + role] = hook
+            funcs["Ranking._Ranking" + role] = hook
+            funcs[sim.fn[role].name] = hook             # module-level form after a move out of the class
         funcs["Ranking"] = lambda ev, call: ("Ranking", ev.ev(call.args[0]))
         funcs["Element"] = lambda ev, call: ev.ev(call.args[0])
         evl = Evaluator({}, funcs)
